@@ -562,6 +562,51 @@ impl<'a> RtcpPacketWriter for ThirdW<'a> {
     }
 }
 
+// ---------------------------------------------------------------------------------------
+// observation probes: a caller may ask an unfinished builder for its size (or even write it)
+// between two configuration calls.  That must not change what the finished builder produces.
+// The probe positions are a 64-bit mask (from the tape / the episode PRNG), kept thread-local
+// so that the plan data model stays a pure description of configuration calls.
+// ---------------------------------------------------------------------------------------
+
+thread_local! {
+    static PROBES: std::cell::Cell<(u64, u32)> = const { std::cell::Cell::new((0, 0)) };
+}
+
+fn set_probes(mask: u64) {
+    PROBES.with(|p| p.set((mask, 0)));
+}
+
+fn probe_due() -> (bool, bool) {
+    PROBES.with(|p| {
+        let (m, c) = p.get();
+        if m == 0 {
+            return (false, false);
+        }
+        p.set((m, c.wrapping_add(1)));
+        ((m >> (c % 64)) & 1 == 1, (m >> ((c + 7) % 64)) & 1 == 1)
+    })
+}
+
+fn probe<W: RtcpPacketWriter>(w: &W) {
+    let (size, write) = probe_due();
+    if size {
+        let _ = crate::guard::guarded(|| w.calculate_size().is_ok());
+        if write {
+            let mut scratch = [0u8; 192];
+            let _ = crate::guard::guarded(|| w.write_into(&mut scratch).is_ok());
+        }
+    }
+}
+
+fn probe_chunk(c: &SdesChunkBuilder<'_>) {
+    let (size, _) = probe_due();
+    if size {
+        let mut scratch = [0u8; 192];
+        let _ = crate::guard::guarded(|| c.write_into(&mut scratch).is_ok());
+    }
+}
+
 /// Concretely typed FCI builders kept alive while a borrowing feedback builder exists.
 pub enum FciAny<'a> {
     Nack(NackBuilder),
@@ -575,6 +620,7 @@ fn build_nack(v: &[u16]) -> NackBuilder {
     let mut b = Nack::builder();
     for s in v {
         b = b.add_rtp_sequence(*s);
+        probe(&b);
     }
     b
 }
@@ -582,6 +628,9 @@ fn build_fir(v: &[(u32, u8)]) -> FirBuilder {
     let mut b = Fir::builder();
     for (s, q) in v {
         b = b.add_ssrc(*s, *q);
+        if v.len() <= 64 {
+            probe(&b);
+        }
     }
     b
 }
@@ -589,6 +638,7 @@ fn build_sli(v: &[(u16, u16, u8)]) -> SliBuilder {
     let mut b = Sli::builder();
     for (a, c, p) in v {
         b = b.add_lost_macroblock(*a, *c, *p);
+        probe(&b);
     }
     b
 }
@@ -604,6 +654,7 @@ fn build_rpsi<'a>(steps: &'a [RpsiStep]) -> RpsiBuilder<'a> {
                 (BytesForm::Vec, true) => b.native_data_owned(bits.clone(), *overrun),
             },
         };
+        probe(&b);
     }
     b
 }
@@ -706,6 +757,7 @@ fn build_chunk<'a>(p: &'a ChunkPlan) -> SdesChunkBuilder<'a> {
     let mut c = SdesChunk::builder(p.ssrc);
     for (i, owned) in &p.items {
         c = if *owned { c.add_item_owned(build_item(i)) } else { c.add_item(build_item(i)) };
+        probe_chunk(&c);
     }
     c
 }
@@ -724,6 +776,7 @@ fn build_packet<'a>(pp: &'a PacketPlan, fcis: &'a [FciAny<'a>], next_fci: &mut u
                     Op::Block(rb) => b.add_report_block(build_rb(rb)),
                     _ => b,
                 };
+                probe(&b);
             }
             Concrete::Sr(b)
         }
@@ -735,6 +788,7 @@ fn build_packet<'a>(pp: &'a PacketPlan, fcis: &'a [FciAny<'a>], next_fci: &mut u
                     Op::Block(rb) => b.add_report_block(build_rb(rb)),
                     _ => b,
                 };
+                probe(&b);
             }
             Concrete::Rr(b)
         }
@@ -746,6 +800,7 @@ fn build_packet<'a>(pp: &'a PacketPlan, fcis: &'a [FciAny<'a>], next_fci: &mut u
                     Op::Chunk(c) => b.add_chunk(build_chunk(c)),
                     _ => b,
                 };
+                probe(&b);
             }
             Concrete::Sdes(b)
         }
@@ -769,6 +824,7 @@ fn build_packet<'a>(pp: &'a PacketPlan, fcis: &'a [FciAny<'a>], next_fci: &mut u
                     },
                     _ => b,
                 };
+                probe(&b);
             }
             Concrete::Bye(b)
         }
@@ -781,6 +837,7 @@ fn build_packet<'a>(pp: &'a PacketPlan, fcis: &'a [FciAny<'a>], next_fci: &mut u
                     Op::AppData(d) => b.data(d.as_slice()),
                     _ => b,
                 };
+                probe(&b);
             }
             Concrete::App(b)
         }
@@ -792,6 +849,7 @@ fn build_packet<'a>(pp: &'a PacketPlan, fcis: &'a [FciAny<'a>], next_fci: &mut u
                     Op::Count(v) => b.count(*v),
                     _ => b,
                 };
+                probe(&b);
             }
             Concrete::Unknown(b)
         }
@@ -806,6 +864,7 @@ fn build_packet<'a>(pp: &'a PacketPlan, fcis: &'a [FciAny<'a>], next_fci: &mut u
                             Op::Media(v) => b.media_ssrc(*v),
                             _ => b,
                         };
+                        probe(&b);
                     }
                     b
                 }};
@@ -883,6 +942,7 @@ fn build<'a>(p: &'a Plan, fcis: &'a [FciAny<'a>], next_fci: &mut usize) -> Concr
                     // part builders are not packet writers; the spec generator never nests them
                     Concrete::Chunk(_) | Concrete::Item(_) | Concrete::Fci(_) => cb,
                 };
+                probe(&cb);
             }
             Concrete::Compound(cb)
         }
@@ -958,10 +1018,18 @@ impl<'a> Concrete<'a> {
 /// Execute the plan's history against the real builders under hash key `hash_key`
 /// and hand the finished builder to `f`.
 pub fn realise<R>(p: &Plan, hash_key: u64, f: impl FnOnce(&Concrete<'_>) -> R) -> R {
+    realise_probed(p, hash_key, 0, f)
+}
+
+/// As `realise`, with observation probes (size queries / scratch writes on the unfinished
+/// builders) at the positions of `probe_mask` between the configuration calls.
+pub fn realise_probed<R>(p: &Plan, hash_key: u64, probe_mask: u64, f: impl FnOnce(&Concrete<'_>) -> R) -> R {
     rtcp_types::verif_hooks::set_hash_seed(hash_key);
+    set_probes(probe_mask);
     let mut arena = Vec::new();
     collect_fcis(p, &mut arena);
     let mut next = 0usize;
     let c = build(p, &arena, &mut next);
+    set_probes(0);
     f(&c)
 }
